@@ -40,4 +40,20 @@ def setParentR (c : Cfg) (fuel n p : Nat) (pos y : Nat) : M := fun w =>
   if old = some p then (.ok (), w)
   else (checkLoop fuel n (some p) ⨾ detachR c fuel n old pos y ⨾ attachR c fuel n p pos y) w
 
+/-- `x.parent = None` (the loop body of the children deleter) for the child `x` whose detach hooks re-enter: position 0 =
+`_pre_detach`, 1 = `_post_detach` -/
+def setParentNoneR (c : Cfg) (fuel x pos y : Nat) : M := fun w =>
+  let old := w.f.parent x
+  if old = none then (.ok (), w) else (detachR c fuel x old pos y) w
+
+/-- the children deleter during which the detach hook (position `pos`) of ONE child `x` detaches another node `y` - typically a
+sibling that the deleter has not reached yet (the loop runs over the tuple `self.children` taken before the first detach, so it
+still visits `y`, finds it parentless and does nothing) -/
+def delChildrenR (c : Cfg) (fuel n x pos y : Nat) : M := fun w =>
+  let cs := w.f.children n
+  (hook c .preDetachChildren n cs ⨾
+   forM' cs (fun ch => if ch = x then setParentNoneR c fuel ch pos y else setParent c fuel ch none) ⨾
+   assertM c (fun f => (f.children n).length == 0) ⨾
+   hook c .postDetachChildren n cs) w
+
 end Anytree
